@@ -1162,8 +1162,8 @@ _D = "display"
 MUTANTS = [
     dict(id="finite-guard-removed", module=_D, old="f\"{v:.1f}\" if math.isfinite(v) and v == int(v) else f\"{v:g}\"",
          new="f\"{v:.1f}\" if v == int(v) else f\"{v:g}\"", rules=["a.partial-ops"]),
-    dict(id="clamp-removed", module=_D, old="	max_preview = max(1, max_preview)\n", new="", rules=["b.tail-slice"]),
-    dict(id="clamp-to-zero", module=_D, old="	max_preview = max(1, max_preview)\n", new="	max_preview = max(0, max_preview)\n", rules=["b.tail-slice"]),
+    dict(id="clamp-removed", module=_D, old="	max_rows = max(2, max_rows)\n", new="", rules=["b.tail-slice"]),
+    dict(id="clamp-to-zero", module=_D, old="	max_rows = max(2, max_rows)\n", new="	max_rows = max(0, max_rows)\n", rules=["b.tail-slice"]),
     dict(id="footer-uses-displayed-dtypes", module=_D, old="		unique_dtypes = set(dtypes_all)", new="		unique_dtypes = set(dtypes_displayed)",
          rules=["c.footer"]),
     dict(id="footer-single-from-displayed", module=_D, old="f\"<{dtypes_all[0]}>\"", new="f\"<{dtypes_displayed[0]}>\"", rules=["c.footer"]),
@@ -1171,11 +1171,11 @@ MUTANTS = [
          old="	# An empty vector reports the shape (): it is still a vector of 0 elements with a dtype\n	if len(shape) <= 1:",
          new="	if not shape:\n		return \"# empty\"\n	if len(shape) == 1:", rules=["c.footer"],
          desc="the defect repaired by the empty-vector repr fix: no element count, no dtype for an empty vector"),
-    dict(id="head-tail-asymmetric", module=_D, old="		preview = list(vals[:max_preview]) + [_ELLIPSIS] + list(vals[-max_preview:])",
-         new="		preview = list(vals[:max_preview]) + [_ELLIPSIS] + list(vals[-(max_preview + 1):])", rules=["d.preview", "b.tail-slice"]),
+    dict(id="head-tail-asymmetric", module=_D, old="		preview = list(vals[:head]) + [_ELLIPSIS] + list(vals[-tail:])",
+         new="		preview = list(vals[:head]) + [_ELLIPSIS] + list(vals[-(tail + 1):])", rules=["d.preview", "b.tail-slice"]),
     dict(id="ellipsis-marker-compared-by-value", module=_D,
-         old="		preview = list(vals[:max_preview]) + [_ELLIPSIS] + list(vals[-max_preview:])\n	else:\n		preview = list(vals)\n\n	# Type-sensitive formatting\n	out = []\n	for v in preview:\n		if v is _ELLIPSIS:",
-         new="		preview = list(vals[:max_preview]) + ['...'] + list(vals[-max_preview:])\n	else:\n		preview = list(vals)\n\n	# Type-sensitive formatting\n	out = []\n	for v in preview:\n		if v == '...':",
+         old="		preview = list(vals[:head]) + [_ELLIPSIS] + list(vals[-tail:])\n	else:\n		preview = list(vals)\n\n	# Type-sensitive formatting\n	out = []\n	for v in preview:\n		if v is _ELLIPSIS:",
+         new="		preview = list(vals[:head]) + ['...'] + list(vals[-tail:])\n	else:\n		preview = list(vals)\n\n	# Type-sensitive formatting\n	out = []\n	for v in preview:\n		if v == '...':",
          rules=["a.element-truth"], desc="the defect repaired by fix cd85498: repr of an object vector with a Vector cell raises"),
     dict(id="cell-truthiness-before-kind", module=_D, old="		elif v is None:\n			out.append('None')",
          new="		elif v is None or not v and v != 0:\n			out.append('None')", rules=["a.element-truth"]),
@@ -1184,11 +1184,11 @@ MUTANTS = [
          new="		body_width = len(formatted_cols[c][0])", rules=["b.empty-guards"]),
     dict(id="max-unguarded", module=_D, old="	max_len = max(len(s) for s in out) if out else 0", new="	max_len = max(len(s) for s in out)", rules=["b.empty-guards"]),
     dict(id="double-halving", module=_D,
-         edits=[(_D, "	if max_preview is None:\n		max_preview = _REPR_ROWS_DEFAULT // 2\n", "	if max_preview is None:\n		max_preview = _REPR_ROWS_DEFAULT\n	max_preview = max_preview // 2\n", 1)],
+         edits=[(_D, "	max_rows = max(2, max_rows)\n", "	max_rows = max(2, max_rows // 2)\n", 1)],
          rules=["d.preview"]),
     dict(id="footer-counts-preview", module=_D, old="		return f\"# {len(pv)} element vector <{dt}>\"", new="		return f\"# {min(len(pv), 12)} element vector <{dt}>\"",
          rules=["c.footer"]),
-    dict(id="repr-marks-tame", module=_D, old="	nd = len(pv.shape)\n	if nd == 1:", new="	nd = len(pv.shape)\n	pv._display_as_row = False\n	if nd == 1:",
+    dict(id="repr-marks-tame", module=_D, old="	nd = len(pv.shape)\n	if nd <= 1:", new="	nd = len(pv.shape)\n	pv._display_as_row = False\n	if nd <= 1:",
          rules=["f.pure"]),
     dict(id="header-guards-disagree", module=_D, old="	if v._name:\n		lines.append(header_text", new="	if v._name is not None:\n		lines.append(header_text",
          rules=["g.definite-assignment"], desc="a vector named '' reaches header_text unbound"),
